@@ -36,6 +36,7 @@ pub fn line_menu() -> Vec<&'static str> {
         "100 IF X THEN ELSE ELSE",
         "110 DIM A(3)",
         "PRINT 1",
+        "REM note",
         "",
         "   ",
         "10 X = 1\r",
